@@ -110,7 +110,8 @@ Message::Message(const string& filename, const string& circuit, const string& le
       m_data(data), m_deleteData(deleteData),
       m_pollPriority(pollPriority),
       m_usedByCondition(false), m_isScanMessage(false), m_condition(condition), m_availableSinceTime(0),
-      m_dataHandlerState(0), m_lastUpdateTime(0), m_lastChangeTime(0), m_pollOrder(0), m_lastPollTime(0) {
+      m_dataHandlerState(0), m_lastUpdateTime(0), m_lastChangeTime(0),
+      m_pollOrder(g_lastPollOrder + (unsigned int)pollPriority), m_lastPollTime(0) {
   if (strcasecmp(circuit.c_str(), "scan") == 0) {
     setScanMessage();
     m_pollPriority = 0;
